@@ -200,6 +200,11 @@ var c19Components = []struct {
 	{"[Y,6]", func(c civil) string { return fmt.Sprintf("%06d", c.Y) }},
 	{"[Y,2-2]", func(c civil) string { return fmt.Sprintf("%02d", c.Y%100) }},
 	{"[D01,1]", func(c civil) string { return fmt.Sprintf("%02d", c.D) }},
+	// "*" as either bound means unbounded
+	{"[D1,2-*]", func(c civil) string { return fmt.Sprintf("%02d", c.D) }},
+	{"[H,*-*]", func(c civil) string { return fmt.Sprint(c.H) }},
+	{"[MNn,3-*]", func(c civil) string { return monthNames[c.M] }},
+	{"[Y,5-*]", func(c civil) string { return fmt.Sprintf("%05d", c.Y) }},
 }
 
 var c19Pic string
